@@ -787,6 +787,20 @@ class ExprMixin(object):
 
     def slice(self, c, sl, st):
         c = self.deref(c, st)
+        if isinstance(c, Sc) and c.py == 'str' and sl.step is None:
+            # s[a:b] of a text with bounds known to be non-negative (negative bounds count from the end: outside the handled subset)
+            L = z3.Length(c.z)
+            def bound(e, dflt):
+                if e is None: return dflt
+                v = self.deref(self.ev1(e, st), st)
+                if not (isinstance(v, Sc) and v.py == 'int'): raise Unsupported('slice bound %r' % (v,))
+                s_neg = st.copy(); s_neg.pc.append(v.z < 0)
+                if self.feasible(s_neg): raise Unsupported('slice bound of a text that may be negative')
+                return v.z
+            a, b = bound(sl.lower, z3.IntVal(0)), bound(sl.upper, L)
+            # Python clamps both bounds to the length; an empty text when a >= b
+            a_, b_ = z3.If(a > L, L, a), z3.If(b > L, L, b)
+            return Sc(z3.If(a_ >= b_, z3.StringVal(''), z3.SubString(c.z, a_, b_ - a_)), 'str')
         def cint(e):
             if e is None: return None
             v = self.ev1(e, st)
@@ -2047,6 +2061,28 @@ class CallMixin(object):
                 st.pc.append(z3.If(z3.Contains(r.z, sep_),
                                    z3.And(z3.Length(pieces) == 2, pieces[0] == z3.SubString(r.z, 0, ix), pieces[1] == z3.SubString(r.z, ix + ls, z3.Length(r.z) - ix - ls)),
                                    z3.And(z3.Length(pieces) == 1, pieces[0] == r.z)))
+            return [(SeqV(pieces, T.Str), st)]
+        if isinstance(r, Sc) and r.py == 'str' and name == 'index' and len(args) in (1, 2) and isinstance(d[0], PyStr) and d[0].s:
+            # s.index(sub[, start]): position of the first occurrence at or after start; ValueError when there is none
+            sub = z3.StringVal(d[0].s); start = z3.IntVal(0)
+            if len(args) == 2:
+                if not (isinstance(d[1], Sc) and d[1].py == 'int'): raise Unsupported('str.index start %r' % (d[1],))
+                start = d[1].z
+                s_neg = st.copy(); s_neg.pc.append(start < 0)
+                if self.feasible(s_neg): raise Unsupported('str.index with a start that may be negative')
+            ix = z3.IndexOf(r.z, sub, start)
+            found = z3.And(start <= z3.Length(r.z), ix >= 0)
+            s_nf = st.copy(); s_nf.pc.append(z3.Not(found)); self.raise_exc('ValueError', s_nf)
+            st.pc += [found, ix >= start, ix + len(d[0].s) <= z3.Length(r.z)]
+            return [(Sc(ix, 'int'), st)]
+        if isinstance(r, Sc) and r.py == 'str' and name == 'rsplit' and len(args) == 2 and isinstance(d[0], PyStr) and len(d[0].s) == 1 and isinstance(d[1], Sc) and z3.is_int_value(d[1].z) and d[1].z.as_long() == 1:
+            # s.rsplit(c, 1) for a one-character separator: split at the LAST occurrence, or the whole text when there is none
+            sep = z3.StringVal(d[0].s); li = fresh(IntS, 'last'); L = z3.Length(r.z)
+            head, tail = z3.SubString(r.z, 0, li), z3.SubString(r.z, li + 1, L - li - 1)
+            has = z3.Contains(r.z, sep)
+            st.pc.append(z3.Implies(has, z3.And(0 <= li, li < L, z3.SubString(r.z, li, 1) == sep, z3.Not(z3.Contains(tail, sep)),
+                                                r.z == z3.Concat(head, sep, tail), z3.Length(head) == li, z3.Length(tail) == L - li - 1)))
+            pieces = z3.If(has, z3.Concat(z3.Unit(head), z3.Unit(tail)), z3.Unit(r.z))
             return [(SeqV(pieces, T.Str), st)]
         if isinstance(r, Sc) and r.py == 'str' and name == 'strip' and not args:
             return [(Sc(strip_ws(r.z), 'str'), st)]
